@@ -76,6 +76,8 @@ def go_case(c, cid, rnd, schedule=None, rand=None, sizes=None, props=None, notra
         "serve": c["serve"], "reads": c["reads"], "max_faults": c["maxfaults"],
         "senders": senders(c), "seed": rnd.randrange(1, 1 << 30), "max_steps": max_steps,
         "no_trace": notrace, "codec": ("delim" if codec is True else (codec or "")), "swallow": c.get("swallow", False), "scribble": c.get("trackbufs", False), "read_closes": list(c.get("readcloses", [])),
+        # what the channel hands to the transport is also pushed through the real write-buffered wrapper
+        "wbuf": (0, 16, 64, 700, 4096)[rnd.randrange(5)], "pin_pool": c.get("pinpool", False),
     }
     if schedule is not None:
         case["schedule"] = schedule
@@ -88,7 +90,7 @@ def go_case(c, cid, rnd, schedule=None, rand=None, sizes=None, props=None, notra
 
 # ---------------------------------------------------------------- model checking
 def model_check(wd, name, c, invariants, properties=(), spec="Spec", maxpolls=2, timeout=900,
-                extra_args=(), constraint=None, view=None, workers=None):
+                extra_args=(), constraint=None, view=None, workers=None, base="Channel"):
     cfg_lines = ["SPECIFICATION %s" % spec]
     if invariants:
         cfg_lines.append("INVARIANTS " + " ".join(invariants))
@@ -99,7 +101,7 @@ def model_check(wd, name, c, invariants, properties=(), spec="Spec", maxpolls=2,
     if view:
         cfg_lines.append("VIEW " + view)
     cfg_lines.append("CHECK_DEADLOCK FALSE")
-    write_mc(wd, name, "Channel", tla_consts(c, maxpolls), cfg_lines)
+    write_mc(wd, name, base, tla_consts(c, maxpolls), cfg_lines)
     return tlc_must(run_tlc(wd, name, args=extra_args, timeout=timeout, workers=workers))
 
 
